@@ -6,7 +6,7 @@ ASSUMPTIONS = [
   "the rename pass RenameName.rename is tied on the trees update_defined_name leaves behind (formula field of DefinedNameKind blanked: the re-parse refreshes it); trees that the stored text does not bring back unchanged (C09/C26 classes) are excluded from the tie because the re-parse, not the pass, changes them",
   "str::to_lowercase is modelled on ASCII and Latin-1 (Localize.lower)",
   "C32_rename_values is about the name table as a key/value list (parsed_defined_names keyed by (scope, lower-cased name)); that the evaluator resolves a DefinedNameKind / NamedFunctionKind through that table is observed on the implementation only",
-  "C32_other_sheets models rename_sheet_by_index on ONE name formula at token level (parse with the active parser, rename, print in the active display form); the character level (a leading '=', decimal separators inside number tokens) is outside the model: a formula stored with its leading '=' does not parse at all and is copied (oracle class rename_sheet_skips_name_formula_with_equals_sign)",
+  "C32_other_sheets models rename_sheet_by_index on ONE name formula at token level (parse with the English parser, rename, print with to_english_string — commit 9f60d5e) and formula_after_name_rename models update_defined_name on ONE stored cell formula (English parser since commit 0ec334c); the character level (a leading '=', decimal separators inside number tokens) is outside the model: a formula stored with its leading '=' does not parse at all and is copied (oracle class rename_sheet_skips_name_formula_with_equals_sign)",
   "the xlsx round trip is oracle-only (names compared modulo the leading '=' the writer drops); the binary round trip is C26's theorem",
 ]
 
